@@ -94,6 +94,9 @@ func registerBig(p *Program) {
 			return Tuple{args[0], true}
 		case *AStr:
 			if n, ok := m.jnTexts[s.T]; ok {
+				if n.JBad != nil && m.Branch(n.JBad, "json.Number-unparseable") {
+					return Tuple{(*Value)(nil), false}
+				}
 				if k, isConst := m.simp(n.JK).Int64(); isConst && k == 0 {
 					setRat(args[0], &RatModel{R: m.Ctx.ToReal(n.JN), I: n.JN})
 					return Tuple{args[0], true}
